@@ -471,7 +471,11 @@ func (x *Exec) evalCall(c *evalCtx, call ECall) (Val, error) {
 			return Val{}, err
 		}
 		if len(a) != 1 || a[0].K != VSlice || a[0].Abs == nil || a[0].Abs.Unknown {
-			return Val{}, fmt.Errorf("opts(): option list value not tracked")
+			why := "not a slice"
+			if len(a) == 1 && a[0].K == VSlice {
+				why = fmt.Sprintf("abs=%v", a[0].Abs)
+			}
+			return Val{}, fmt.Errorf("opts(): option list value not tracked (%s)", why)
 		}
 		fields, _ := x.optRecord(c.state(), a[0].Abs)
 		ot := x.optionsType()
